@@ -4,6 +4,7 @@
 import datetime
 import posixpath
 import errno
+import functools
 from copy import copy
 from io import BytesIO, IOBase
 from typing import Union
@@ -26,6 +27,16 @@ from pyfatfs.FATDirectoryEntry import FATDirectoryEntry, make_lfn_entry
 from pyfatfs._exceptions import PyFATException
 from pyfatfs.FatIO import FatIO
 from pyfatfs.EightDotThree import EightDotThree
+
+
+def _fs_locked(func):
+    """Run a modifying method while holding the filesystem lock."""
+    @functools.wraps(func)
+    def _wrapper(self, *args, **kwargs):
+        with self.fs.fs_lock:
+            return func(self, *args, **kwargs)
+
+    return _wrapper
 
 
 class PyFatFS(FS):
@@ -182,6 +193,7 @@ class PyFatFS(FS):
             raise e
         return [str(e) for e in dirs+files]
 
+    @_fs_locked
     def create(self, path: str, wipe: bool = False) -> bool:
         """Create a new file.
 
@@ -258,6 +270,7 @@ class PyFatFS(FS):
         self.fs.flush_fat()
         return True
 
+    @_fs_locked
     def makedir(self, path: str, permissions: Permissions = None,
                 recreate: bool = False):
         """Create directory on filesystem.
@@ -351,6 +364,7 @@ class PyFatFS(FS):
         base.add_subdirectory(newdir)
         self.fs.update_directory_entry(base)
 
+    @_fs_locked
     def removedir(self, path: str):
         """Remove empty directories from the filesystem.
 
@@ -375,6 +389,7 @@ class PyFatFS(FS):
 
         self._remove(base, dir_entry)
 
+    @_fs_locked
     def removetree(self, dir_path: str):
         """Recursively remove the contents of a directory.
 
@@ -398,6 +413,7 @@ class PyFatFS(FS):
         except RemoveRootError:
             pass
 
+    @_fs_locked
     def remove(self, path: str):
         """Remove a file from the filesystem.
 
@@ -452,6 +468,7 @@ class PyFatFS(FS):
         # Flush FAT(s) to disk
         self.fs.flush_fat()
 
+    @_fs_locked
     def openbin(self, path: str, mode: str = "r",
                 buffering: int = -1, **options):
         """Open file from filesystem.
@@ -527,6 +544,7 @@ class PyFatFS(FS):
                                  errno=errno.EINVAL)
         return dt
 
+    @_fs_locked
     def setinfo(self, path: str, info):
         """Set file meta information such as timestamps."""
         details = info.get('details', {})
